@@ -107,12 +107,23 @@ def assert_pure(progs):
                     bad = 'assignment operator'
                 elif n.get('k') in ('new', 'delete'):
                     bad = 'allocation'
+                elif n.get('k') == 'call' and n.get('fn') is not None:
+                    # a callee that advances a single-pass iterator handed to it (std::distance, std::find, ...) consumes the caller's
+                    # range: copies of an input iterator share the underlying stream
+                    for fid in prog.reachable(n['fn']):
+                        fx = prog.fns.get(fid)
+                        if fx and fx.get('kind') == 'method' and not fx.get('const') and not fx.get('static') and \
+                                (fx.get('clsq') or '').startswith('arch::InputIt'):
+                            bad = 'single-pass iterator advanced inside %s (%s): the asserted range is consumed' % (A.cshort(n), short(fx['name']))
+                            break
                 site = rel(prog.site(f, n)).rsplit(':', 1)[0]
                 if site not in seen:
                     seen.add(site)
                     rr.instance('%s|%s' % (f['key'], site), {'function': f['pname'][:140], 'assert_at': site})
+                    if any('arch::InputIt' in p_.get('t', '') for p_ in f.get('params', [])):
+                        rr.single_pass_sites = getattr(rr, 'single_pass_sites', 0) + 1
                 if bad:
-                    rr.add(Finding('ASSERT-PURE', '%s|%s' % (f['key'], bad.split(' ')[0]), prog.site(f, n),
+                    rr.add(Finding('ASSERT-PURE', '%s|%s' % (f['key'], bad.split(' ')[0].split('-')[0]), prog.site(f, n),
                                    'the argument of an assert contains a side effect (%s): behaviour differs between NDEBUG and assertion builds' % bad,
                                    where=f['pname'], unit=prog.uname))
     return rr
